@@ -1,16 +1,21 @@
 #!/usr/bin/env python3
-"""Runs the registered quick checks against every seeded change under /verif/seeded, each in its own
-scratch worktree (never in /repo), and writes /verif/seeded/RESULTS.json.
+"""Runs the registered quick checks against every seeded change under /verif/seeded, each in a scratch
+worktree (never in /repo), and writes /verif/seeded/RESULTS.json.
 
-usage: seeded_matrix.py [--only C01-1,C02-1] [--checks own|all]"""
+usage: seeded_matrix.py [--only C01-1,C02-1] [--jobs N] [--rounds 5,6]
+
+Every job owns one worktree (/tmp/vm/wt<j>), one build directory and one scratch output directory, reused
+from one change to the next so that only the library and the harness are rebuilt."""
 import json
 import os
 import shutil
 import subprocess
 import sys
+import threading
 
 VERIF = os.path.dirname(os.path.dirname(os.path.abspath(__file__)))
 BASE = "/tmp/vm"
+LOCK = threading.Lock()
 
 
 def sh(cmd, cwd=None, env=None, timeout=3600):
@@ -18,49 +23,84 @@ def sh(cmd, cwd=None, env=None, timeout=3600):
     return p.returncode, p.stdout
 
 
+def run_one(job, name, results, rpath):
+    pid = name.split("-")[0]
+    meta = json.load(open(os.path.join(VERIF, "seeded", name, "meta.json")))
+    extra = sorted({r["cmd"].split()[1] for r in meta.get("ran", [])} | {pid})
+    wt = os.path.join(BASE, "wt%d" % job)
+    scratch = os.path.join(BASE, "out%d" % job)
+    shutil.rmtree(scratch, ignore_errors=True)
+    sh("git checkout -- . && git clean -fdq", cwd=wt)
+    rc, o = sh("git apply %s" % os.path.join(VERIF, "seeded", name, "patch.diff"), cwd=wt)
+    if rc != 0:
+        with LOCK:
+            results[name] = {"error": "patch does not apply: " + o[-300:]}
+        return
+    env = dict(os.environ)
+    env["VERIF_REPO"] = wt
+    env["VERIF_SCRATCH"] = scratch
+    env["VERIF_TARGET"] = os.path.join(BASE, "target%d" % job)
+    res = {}
+    for c in extra:
+        rc, o = sh("./check %s --tier quick" % c, cwd=VERIF, env=env)
+        viol = [l for l in o.splitlines() if l.startswith("VIOLATION")]
+        res[c] = {"exit": rc, "violation_lines": len(viol)}
+        print(name, c, rc, len(viol), flush=True)
+    sh("git checkout -- . && git clean -fdq", cwd=wt)
+    shutil.rmtree(scratch, ignore_errors=True)
+    with LOCK:
+        results[name] = {"property": pid, "checks": res, "detected_by": sorted(c for c, r in res.items() if r["exit"] == 1)}
+        with open(rpath, "w") as f:
+            json.dump(results, f, indent=1, sort_keys=True)
+            f.write("\n")
+
+
 def main():
-    only = None
+    only, jobs, rounds = None, 1, None
     for i, a in enumerate(sys.argv):
         if a == "--only":
             only = set(sys.argv[i + 1].split(","))
+        if a == "--jobs":
+            jobs = int(sys.argv[i + 1])
+        if a == "--rounds":
+            rounds = set(sys.argv[i + 1].split(","))
     results = {}
     rpath = os.path.join(VERIF, "seeded", "RESULTS.json")
     if os.path.exists(rpath):
         results = json.load(open(rpath))
     names = sorted(d for d in os.listdir(os.path.join(VERIF, "seeded")) if os.path.isdir(os.path.join(VERIF, "seeded", d)))
-    for name in names:
-        if only and name not in only:
-            continue
-        pid = name.split("-")[0]
-        meta = json.load(open(os.path.join(VERIF, "seeded", name, "meta.json")))
-        extra = sorted({r["cmd"].split()[1] for r in meta.get("ran", [])} | {pid})
-        wt = os.path.join(BASE, name)
-        scratch = os.path.join(BASE, name + "-out")
-        shutil.rmtree(scratch, ignore_errors=True)
+    names = [n for n in names if (not only or n in only) and (not rounds or n.split("-")[1] in rounds)]
+    os.makedirs(BASE, exist_ok=True)
+    for j in range(jobs):
+        wt = os.path.join(BASE, "wt%d" % j)
         sh("git -C /repo worktree remove --force %s" % wt)
-        rc, o = sh("git -C /repo worktree add --detach %s HEAD" % wt)
-        rc, o = sh("git apply %s" % os.path.join(VERIF, "seeded", name, "patch.diff"), cwd=wt)
-        if rc != 0:
-            results[name] = {"error": "patch does not apply: " + o[-300:]}
-            continue
-        env = dict(os.environ)
-        env["VERIF_REPO"] = wt
-        env["VERIF_SCRATCH"] = scratch
-        res = {}
-        for c in extra:
-            rc, o = sh("./check %s --tier quick" % c, cwd=VERIF, env=env)
-            viol = [l for l in o.splitlines() if l.startswith("VIOLATION")]
-            res[c] = {"exit": rc, "violation_lines": len(viol)}
-            print(name, c, rc, len(viol), flush=True)
-        results[name] = {"property": pid, "checks": res, "detected_by": sorted(c for c, r in res.items() if r["exit"] == 1)}
-        sh("git -C /repo worktree remove --force %s" % wt)
-        shutil.rmtree(scratch, ignore_errors=True)
-        with open(rpath, "w") as f:
-            json.dump(results, f, indent=1, sort_keys=True)
-            f.write("\n")
+        sh("git -C /repo worktree add --detach %s HEAD" % wt)
+    queue = list(names)
+
+    def worker(j):
+        while True:
+            with LOCK:
+                if not queue:
+                    return
+                name = queue.pop(0)
+            try:
+                run_one(j, name, results, rpath)
+            except Exception as e:      # a failure of the machinery for one change must not stop the matrix
+                with LOCK:
+                    results[name] = {"error": str(e)[:300]}
+
+    threads = [threading.Thread(target=worker, args=(j,)) for j in range(jobs)]
+    for t in threads:
+        t.start()
+    for t in threads:
+        t.join()
+    for j in range(jobs):
+        sh("git -C /repo worktree remove --force %s" % os.path.join(BASE, "wt%d" % j))
+        shutil.rmtree(os.path.join(BASE, "target%d" % j), ignore_errors=True)
     sh("git -C /repo worktree prune")
-    return 0
+    undetected = [n for n in names if not results.get(n, {}).get("detected_by")]
+    print("changes: %d   undetected: %s" % (len(names), undetected))
 
 
 if __name__ == "__main__":
-    sys.exit(main())
+    main()
